@@ -175,6 +175,12 @@ def exec_bad(cs, obs, done, rec, quiet):
             out.append(('executor:running-task-not-canceled', 'outcome %s' % last['outcome']))
     if not req_i and last['outcome'] == 'CANCELED':
         out.append(('executor:canceled-without-request', str(last)))
+    # "... unless it had already finished": the process had exited by itself before the request reached the executor
+    # (an 'exit' step only means something while the process exists)
+    ex_i = [i for i, c in enumerate(done) if isinstance(c, list) and c[0] == 'exit' and i > 0 and i - 1 < len(obs) and obs[i - 1]['proc_key']]
+    if ex_i and req_i and ex_i[0] < req_i[0] and last['outcome'] == 'CANCELED':
+        out.append(('executor:finished-task-ends-canceled',
+                    'the process exited with %s at step %d, the request arrived at step %d: outcome %s' % (done[ex_i[0]][1], ex_i[0], req_i[0], last['outcome'])))
     return out
 
 
